@@ -30,7 +30,7 @@ BOUNDS = {
               "addresses": "symbolic, whole 32-bit space (address+length <= 2**32)",
               "data bytes, start address": "symbolic"},
     "thorough": {"regions": "1..3", "region lengths": "1 region: 1..70 (all) and 91,120,121; 2 regions: 12 length pairs up to 70; "
-                                                      "3 regions: 8 length triples up to (70,61,33); every insertion order",
+                                                      "3 regions: 7 length triples up to (70,61,33); every insertion order",
                  "addresses": "symbolic, whole 32-bit space (address+length <= 2**32)",
                  "data bytes, start address": "symbolic"},
 }
@@ -187,11 +187,13 @@ def _shapes(tier):
     else:
         one = list(range(1, 71)) + [91, 120, 121]
         two = [(1, 1), (1, 2), (30, 30), (31, 30), (29, 31), (2, 61), (60, 1), (61, 61), (70, 1), (70, 31), (33, 70), (70, 70)]
-        three = [(1, 1, 1), (1, 2, 3), (2, 1, 31), (30, 30, 30), (31, 1, 30), (31, 61, 2), (61, 2, 31), (70, 61, 33)]
+        three = [(1, 1, 1), (1, 2, 3), (2, 1, 31), (30, 30, 30), (31, 1, 30), (31, 61, 2), (70, 61, 33)]
     return [(n,) for n in one] + two + three
 
 
 def jobs(tier, seed):
+    from ref import ihex
+    ihex.selftest()          # the reference reader agrees with the published example records
     js = []
     for lens in _shapes(tier):
         for order in itertools.permutations(range(len(lens))):
